@@ -24,6 +24,7 @@ type ReplaySpec struct {
 	Diff string // Go expression giving the difference mask (default vsStepDiff(...))
 	Intr bool   // the pending request is part of the pre-state
 	Rel  *relCase
+	Contract *Contract
 	Note string
 }
 
@@ -161,6 +162,8 @@ func (ld *Loaded) genStepReplay(model map[string]uint64, rs *ReplaySpec, idx int
 		data := "nil"
 		if n > 0 {
 			data = "[]uint8{" + strings.Join(bs, ", ") + "}"
+		} else if model["intr:Cap"] != 0 {
+			data = "make([]uint8, 0, 1)" // empty but not nil
 		}
 		fmt.Fprintf(&sb, "\tcpu.Interrupt = &Interrupt{Type: InterruptType(%d), Data: %s}\n", sext64(model["intr:Type"], 64), data)
 	}
@@ -299,6 +302,7 @@ func (r *Run) reportFailures(ld *Loaded, os_ []*OblResult, compMask func(string)
 		return
 	}
 	rfs := make([]*replayFile, len(os_))
+	pkgDir, pkgName := "", "z80"
 	var cases []int
 	var body strings.Builder
 	for i, o := range os_ {
@@ -313,11 +317,22 @@ func (r *Run) reportFailures(ld *Loaded, os_ []*OblResult, compMask func(string)
 				rf.Model[k] = fmt.Sprintf("0x%x", v)
 			}
 		}
-		if o.Status == "failed" && o.vc != nil && o.vc.Replay != nil && o.res != nil && o.res.Model != nil && (o.vc.Replay.Kind == "step" || o.vc.Replay.Kind == "rel") && len(cases) < 400 {
+		if o.Status == "failed" && o.vc != nil && o.vc.Replay != nil && o.res != nil && o.res.Model != nil && (o.vc.Replay.Kind == "step" || o.vc.Replay.Kind == "rel" || o.vc.Replay.Kind == "func") && len(cases) < 400 {
 			var src string
-			if o.vc.Replay.Kind == "rel" {
+			switch o.vc.Replay.Kind {
+			case "rel":
 				src = ld.genRelReplay(o.res.Model, o.vc.Replay, i)
-			} else {
+			case "func":
+				var ok bool
+				src, ok = ld.genFuncReplay(o.vc.Replay.Contract, o.res.Model, o.Failed, i)
+				if !ok {
+					continue
+				}
+				if pkgDir == "" {
+					pkgDir = filepath.Join(ld.repo, relDir(o.vc.Replay.Contract.Fn.Pkg.Pkg.Path()))
+					pkgName = o.vc.Replay.Contract.Fn.Pkg.Pkg.Name()
+				}
+			default:
 				src = ld.genStepReplay(o.res.Model, o.vc.Replay, i)
 			}
 			rf.Test = src
@@ -328,14 +343,17 @@ func (r *Run) reportFailures(ld *Loaded, os_ []*OblResult, compMask func(string)
 	outByCase := map[int]string{}
 	if len(cases) > 0 {
 		var sb strings.Builder
-		sb.WriteString("package z80\n\nimport (\n\t\"fmt\"\n\t\"testing\"\n)\n\n")
+		sb.WriteString("package " + pkgName + "\n\nimport (\n\t\"fmt\"\n\t\"testing\"\n)\n\n")
 		sb.WriteString(body.String())
 		sb.WriteString("func TestVerifReplay(t *testing.T) {\n")
 		for _, c := range cases {
 			fmt.Fprintf(&sb, "\tfmt.Println(\"REPLAY-CASE %d\")\n\tvsReplayCase%d()\n", c, c)
 		}
 		sb.WriteString("\tfmt.Println(\"REPLAY-END\")\n}\n")
-		out, _ := r.runReplay(ld, sb.String(), ld.repo)
+		if pkgDir == "" {
+			pkgDir = ld.repo
+		}
+		out, _ := r.runReplay(ld, sb.String(), pkgDir)
 		cur := -1
 		for _, ln := range strings.Split(out, "\n") {
 			if strings.HasPrefix(ln, "REPLAY-CASE ") {
@@ -377,7 +395,9 @@ func (r *Run) reportFailures(ld *Loaded, os_ []*OblResult, compMask func(string)
 			}
 			noInput = !rf.Reproduced
 		}
-		if o.Status != "failed" {
+		if o.res != nil && o.res.Status == "structure" {
+			rf.Note = "structural obligation (call graph / CFG): " + o.Note
+		} else if o.Status != "failed" {
 			rf.Note = "the solver returned no counterexample (" + o.Note + "); the obligation is not discharged"
 		} else if noInput {
 			rf.Note = "the solver's model did not reproduce on the real code through the replay harness (or no harness exists for this obligation kind)"
